@@ -57,12 +57,14 @@ pub struct XlsbChoices {
     pub rich_sst: bool,
     pub num_enc: Option<NumEnc>,
     pub deflate: bool,
+    /// BrtRowHdr groups written in a random order
+    pub rows_shuffled: bool,
     pub vba: Option<Vec<u8>>,
 }
 
 impl Default for XlsbChoices {
     fn default() -> Self {
-        XlsbChoices { noise_pct: 0, big_noise: false, dims_wrong: false, shared_strings: true, rich_sst: false, num_enc: None, deflate: true, vba: None }
+        XlsbChoices { noise_pct: 0, big_noise: false, dims_wrong: false, shared_strings: true, rich_sst: false, num_enc: None, deflate: true, rows_shuffled: false, vba: None }
     }
 }
 
@@ -76,6 +78,7 @@ impl XlsbChoices {
             rich_sst: rng.bool(),
             num_enc: if rng.chance(1, 3) { Some(NumEnc::Number) } else { None },
             deflate: rng.bool(),
+            rows_shuffled: rng.chance(1, 4),
             vba: None,
         }
     }
@@ -214,7 +217,13 @@ pub fn encode(book: &MBook, ch: &XlsbChoices, extra: &XlsbExtra, rng: &mut Rng) 
         }
         rec(&mut o, 0x0091, &[]); // BrtBeginSheetData
         let rows: std::collections::BTreeSet<u32> = sh.cells.keys().map(|p| p.0).collect();
+        let row_area_start = o.len();
+        let mut row_groups: Vec<std::ops::Range<usize>> = vec![];
         for r in rows {
+            if let Some(last) = row_groups.last_mut() {
+                last.end = o.len();
+            }
+            row_groups.push(o.len()..o.len());
             noise.maybe(&mut o, true);
             let mut rh = r.to_le_bytes().to_vec();
             rh.extend_from_slice(&[0, 0, 0, 0, 0x2C, 0x01, 0, 0, 0]);
@@ -316,6 +325,19 @@ pub fn encode(book: &MBook, ch: &XlsbChoices, extra: &XlsbExtra, rng: &mut Rng) 
                 };
                 cell_feats.insert((si, *p), feat);
             }
+        }
+        if let Some(last) = row_groups.last_mut() {
+            last.end = o.len();
+        }
+        if ch.rows_shuffled && row_groups.len() > 1 {
+            noise.rng.shuffle(&mut row_groups);
+            let mut area = Vec::with_capacity(o.len() - row_area_start);
+            for g in &row_groups {
+                area.extend_from_slice(&o[g.clone()]);
+            }
+            o.truncate(row_area_start);
+            o.extend_from_slice(&area);
+            *noise.counts.entry("rows_out_of_order".to_string()).or_insert(0) += 1;
         }
         noise.maybe(&mut o, true);
         rec(&mut o, 0x0092, &[]); // BrtEndSheetData
